@@ -15,8 +15,14 @@ import (
 	"strings"
 	"sync"
 
+	"github.com/ipld/go-ipld-prime/datamodel"
+	"github.com/ipld/go-ipld-prime/linking"
+	cidlink "github.com/ipld/go-ipld-prime/linking/cid"
+	"github.com/ipld/go-ipld-prime/node/basicnode"
 	"github.com/ipld/go-ipld-prime/storage"
 	"github.com/ipld/go-ipld-prime/storage/fsstore"
+	cid "github.com/ipfs/go-cid"
+	_ "github.com/ipld/go-ipld-prime/codec/dagcbor"
 	"github.com/ipld/go-ipld-prime/zzverif/vos"
 
 	"verif/mc/core"
@@ -53,6 +59,66 @@ func contentOf(k string) []byte {
 }
 
 var allKeys = []string{"k1", "k2", "AAAAAk1", "samesh"}
+
+// Blocks written through a link system whose write storage is the store (LinkSystem.Store: encode,
+// hash, PutStream/commit under the link's binary form): two values; key = the link, content = the block.
+var lsProto = cidlink.LinkPrototype{Prefix: cid.Prefix{Version: 1, Codec: 0x71, MhType: 0x12, MhLength: 32}}
+var lsNodes = map[string]datamodel.Node{}
+var lsKeys []string
+
+func init() {
+	mk := func(build func(na datamodel.NodeAssembler)) {
+		nb := basicnode.Prototype.Any.NewBuilder()
+		build(nb)
+		n := nb.Build()
+		ls := cidlink.DefaultLinkSystem()
+		var buf bytes.Buffer
+		ls.StorageWriteOpener = func(linking.LinkContext) (io.Writer, linking.BlockWriteCommitter, error) {
+			return &buf, func(datamodel.Link) error { return nil }, nil
+		}
+		l, err := ls.Store(linking.LinkContext{}, lsProto, n)
+		if err != nil {
+			panic("harness: " + err.Error())
+		}
+		k := l.Binary()
+		lsNodes[k], contents[k] = n, append([]byte(nil), buf.Bytes()...)
+		lsKeys = append(lsKeys, k)
+		allKeys = append(allKeys, k)
+	}
+	mk(func(na datamodel.NodeAssembler) {
+		ma, _ := na.BeginMap(2)
+		va, _ := ma.AssembleEntry("alpha")
+		va.AssignString("the first entry is written before the second one fails")
+		va, _ = ma.AssembleEntry("beta")
+		va.AssignInt(2)
+		ma.Finish()
+	})
+	mk(func(na datamodel.NodeAssembler) {
+		la, _ := na.BeginList(2)
+		la.AssembleValue().AssignString("x")
+		la.AssembleValue().AssignString("y")
+		la.Finish()
+	})
+}
+
+// failingMap: a map node whose iterator fails at its second entry (an encode of it emits the map head
+// and the first entry, then returns the error).
+type failingMap struct{ datamodel.Node }
+
+func (n failingMap) MapIterator() datamodel.MapIterator { return &failingIter{n.Node.MapIterator(), 0} }
+
+type failingIter struct {
+	datamodel.MapIterator
+	n int
+}
+
+func (it *failingIter) Next() (datamodel.Node, datamodel.Node, error) {
+	it.n++
+	if it.n == 2 {
+		return nil, nil, fmt.Errorf("harness: the node cannot be read any further")
+	}
+	return it.MapIterator.Next()
+}
 
 type Fault struct {
 	At    int    `json:"at_call"` // index of the filesystem call (in the writer's call sequence)
@@ -200,6 +266,20 @@ func runHistory(s *fsstore.Store, h []WOp, ctl *controller) (acked []bool, errs 
 		case "helper-put":
 			errs[i] = storage.Put(ctx, s, op.Key, append([]byte(nil), c...))
 			acked[i] = errs[i] == nil
+		case "ls-store":
+			ls := cidlink.DefaultLinkSystem()
+			ls.SetWriteStorage(s)
+			bin := lsKeys[int(op.Key[2]-'0')] // "ls0", "ls1": the prepared blocks (their keys are binary links)
+			n := lsNodes[bin]
+			if op.End == "encode-fails" {
+				n = failingMap{n}
+			}
+			var l datamodel.Link
+			l, errs[i] = ls.Store(linking.LinkContext{Ctx: ctx}, lsProto, n)
+			acked[i] = errs[i] == nil
+			if acked[i] && l.Binary() != bin {
+				panic("harness: LinkSystem.Store computed another link than the prepared one")
+			}
 		case "stream", "helper-stream":
 			var w io.Writer
 			var commit func(string) error
@@ -339,7 +419,11 @@ func RunCase(c Case) (fs []core.Finding, calls int, log []string) {
 	must := map[string]bool{}
 	for i, a := range acked {
 		if a {
-			must[c.History[i].Key] = true
+			k := c.History[i].Key
+			if c.History[i].Kind == "ls-store" {
+				k = lsKeys[int(k[2]-'0')]
+			}
+			must[k] = true
 		}
 	}
 	tag := "none"
@@ -378,6 +462,11 @@ func histories(quick bool) [][]WOp {
 		{WOp{"putvec", "k1", 1, ""}},
 		{WOp{"helper-stream", "k1", 2, "commit"}},
 		{WOp{"helper-put", "k2", 0, ""}, WOp{"putvec", "k2", 2, ""}},
+		// through LinkSystem.Store with the store as write storage; an encode that fails midway is one
+		// more way for a streaming write to fail
+		{WOp{"ls-store", "ls0", 0, ""}, WOp{"ls-store", "ls1", 0, ""}},
+		{WOp{"ls-store", "ls0", 0, "encode-fails"}, WOp{"ls-store", "ls1", 0, ""}},
+		{WOp{"ls-store", "ls0", 0, "encode-fails"}, WOp{"ls-store", "ls0", 0, ""}},
 	}
 	if !quick {
 		hs = append(hs,
